@@ -253,8 +253,8 @@ impl Property for CnfProp {
     }
     fn cases(&self, tier: Tier) -> u64 {
         match tier {
-            Tier::Quick => 4_000,
-            Tier::Thorough => 60_000,
+            Tier::Quick => 15_000,
+            Tier::Thorough => 150_000,
         }
     }
     fn floors(&self, _tier: Tier) -> Vec<(&'static str, f64)> {
@@ -488,8 +488,8 @@ impl Property for WcnfProp {
     }
     fn cases(&self, tier: Tier) -> u64 {
         match tier {
-            Tier::Quick => 4_000,
-            Tier::Thorough => 80_000,
+            Tier::Quick => 20_000,
+            Tier::Thorough => 400_000,
         }
     }
     fn floors(&self, _tier: Tier) -> Vec<(&'static str, f64)> {
